@@ -52,7 +52,8 @@ class Mod:
             self.tree = ast.parse(self.src, filename=self.path)
         except SyntaxError as e:
             raise AnalysisError('cannot parse %s: %s' % (rel, e))
-        from .canon import canonicalise
+        from .canon import canonicalise, normal_form
+        normal_form(self.tree)
         canonicalise(rel, self.tree)
         for parent in ast.walk(self.tree):
             for child in ast.iter_child_nodes(parent):
@@ -437,6 +438,16 @@ class Program:
                     if f.node is n:
                         return f
         return None
+
+
+def block_of(stmt):
+    """The statement list (body / orelse / finalbody / handler body) that contains ``stmt``."""
+    p = getattr(stmt, '_parent', None)
+    for field in ('body', 'orelse', 'finalbody'):
+        block = getattr(p, field, None)
+        if isinstance(block, list) and any(b is stmt for b in block):
+            return block
+    return []
 
 
 def qual_of(mod, node):
